@@ -65,6 +65,10 @@ impl<'tcx, 'a> Cx<'tcx, 'a> {
                 ProjectionElem::Deref => J::A(vec![s("deref")]),
                 ProjectionElem::Field(f, fty) => {
                     let bty = base.ty(self.body, self.tcx);
+                    let base_adt = match bty.ty.kind() {
+                        ty::Adt(adt, _) => s(path(self.tcx, adt.did())),
+                        _ => J::Null,
+                    };
                     let name = match bty.ty.kind() {
                         ty::Adt(adt, _) => {
                             let v = match bty.variant_index {
@@ -79,7 +83,7 @@ impl<'tcx, 'a> Cx<'tcx, 'a> {
                         }
                         _ => J::Null,
                     };
-                    J::A(vec![s("field"), J::I(f.as_u32() as i128), name, s(ty_s(fty))])
+                    J::A(vec![s("field"), J::I(f.as_u32() as i128), name, s(ty_s(fty)), base_adt])
                 }
                 ProjectionElem::Index(l) => J::A(vec![s("index"), J::I(l.as_u32() as i128)]),
                 ProjectionElem::ConstantIndex { offset, min_length, from_end } => J::A(vec![
@@ -238,7 +242,10 @@ impl<'tcx, 'a> Cx<'tcx, 'a> {
                 let fty = op.ty(self.body, tcx);
                 J::A(vec![s("cast"), s(kk), self.operand(op), s(ty_s(*ty)), s(ty_s(fty))])
             }
-            Rvalue::Discriminant(p) => J::A(vec![s("discr"), self.place(p)]),
+            Rvalue::Discriminant(p) => {
+                let pty = p.ty(self.body, tcx).ty;
+                J::A(vec![s("discr"), self.place(p), s(ty_s(pty))])
+            }
             Rvalue::Aggregate(kind, ops) => {
                 let k = match &**kind {
                     AggregateKind::Array(t) => J::O(vec![("array", s(ty_s(*t)))]),
@@ -341,7 +348,9 @@ impl<'tcx, 'a> Cx<'tcx, 'a> {
                     ("k", s("call")),
                     ("func", f),
                     ("args", J::A(args.iter().map(|a| self.operand(&a.node)).collect())),
+                    ("arg_tys", J::A(args.iter().map(|a| s(ty_s(a.node.ty(self.body, tcx)))).collect())),
                     ("dest", self.place(destination)),
+                    ("dest_ty", s(ty_s(destination.ty(self.body, tcx).ty))),
                     ("t", opt(*target, |t| J::I(t.as_u32() as i128))),
                     ("unwind", self.unwind(unwind)),
                     ("line", J::I(line_of(tcx, *fn_span))),
@@ -502,7 +511,12 @@ pub fn dump_crate<'tcx>(tcx: TyCtxt<'tcx>) -> J {
             DefKind::Struct | DefKind::Enum | DefKind::Union => {
                 let adt = tcx.adt_def(did);
                 let mut vs = Vec::new();
-                for v in adt.variants() {
+                let discrs: Vec<String> = if adt.is_enum() {
+                    adt.discriminants(tcx).map(|(_, d)| d.to_string()).collect()
+                } else {
+                    Vec::new()
+                };
+                for (vi, v) in adt.variants().iter().enumerate() {
                     let mut fs = Vec::new();
                     for f in &v.fields {
                         let fty = tcx.type_of(f.did).instantiate_identity().skip_norm_wip();
@@ -518,7 +532,8 @@ pub fn dump_crate<'tcx>(tcx: TyCtxt<'tcx>) -> J {
                         };
                         fs.push(J::O(vec![("name", s(f.name.to_string())), ("ty", s(ty_s(fty))), ("vis", s(vis))]));
                     }
-                    vs.push(J::O(vec![("name", s(v.name.to_string())), ("fields", J::A(fs))]));
+                    let dv = discrs.get(vi).cloned().unwrap_or_else(|| vi.to_string());
+                    vs.push(J::O(vec![("name", s(v.name.to_string())), ("fields", J::A(fs)), ("discr", s(dv))]));
                 }
                 adts.push(J::O(vec![
                     ("path", s(path(tcx, did))),
